@@ -88,7 +88,7 @@ class Ctx:
         api = self._api
 
         def pred(cb, term, chain):
-            if cb["key"] in force:
+            if cb["key"] in force or (force == "*" and cb["key"] not in skip):
                 return True
             return cb["key"] not in skip and cb["key"] not in api and not (cb.get("vis") or {}).get("exported", True)
         return inline_calls(db, b, pred)
@@ -99,7 +99,7 @@ class Ctx:
         (one return block per path, no merged states).  The analysed body carries `inlined` (list of helper calls that were expanded)."""
         from .mirxf import inline_calls, treeify
         from .models import MODELS, PURE_KEYS
-        k = (cfg, key, "inl", split, tuple(sorted(keep)), tag, tuple(sorted(force)))
+        k = (cfg, key, "inl", split, tuple(sorted(keep)), tag, force if force == "*" else tuple(sorted(force)))
         if k not in self.analysed:
             db = self.db(cfg)
             b = db.get(key)
